@@ -21,20 +21,20 @@ def std_runs(n, stubbing=False, heavy=False, **kw):
     r.update(kw)
     runs = [r]
     if heavy:
-        runs.append(dict(features=[p, "big"], cfg="nostd", stubbing=stubbing, jobs=2, mem_gb=28, stack_unlimited=True,
-                         harness_timeout=1500, filters={"quick": [], "thorough": [p + "h_"]}))
+        runs.append(dict(features=[p, "big"], cfg="nostd", stubbing=True, jobs=2, mem_gb=28, stack_unlimited=True,
+                         harness_timeout=1500, timeout=7200, filters={"quick": [], "thorough": [p + "h_"]}))
     return runs
 
 
 PROPS = {
     "C01": dict(
-        runs=std_runs(1),
+        runs=std_runs(1, heavy=True),
         bounds="scalars/sums/products at full width; sequences with <= 3 symbolic elements (concrete count per query); maps/sets with <= 2 symbolic keys or 3 concrete keys; 18-tuple of u8",
         outside="sequences of > 3 non-ZST elements (same loop body, not re-proved); counts >= 2^14 on the encode side except where C15/C18 reach the prefix; bit sequences spanning >= 2 store words",
         explanation="real Encode::encode_to of each type into a fixed sink vs. the independent SCALE reference encoder, byte for byte, all contents symbolic; every panic/overflow/OOB check on the encode path is a CBMC obligation (no-panic clause).",
     ),
     "C02": dict(
-        runs=std_runs(2),
+        runs=std_runs(2, heavy=True),
         bounds="scalars/sums/products at full width; sequences with <= 3 symbolic elements (count concrete per query, handed to the decoder as a concrete prefix: rule R2); maps/sets with 1 entry; symbolic 2-byte suffix after every encoding",
         outside="element-path sequences straddling the 16 KiB window at real scale (see the heavy tier); maps with >= 2 entries on the decode side (C03 thorough covers 2); nesting deeper than 2",
         explanation="symbolic value -> real encode_to -> append a symbolic suffix -> real decode: Ok, logically equal (floats by bits, heaps as multisets), consumed exactly the encoding, suffix untouched.",
@@ -133,6 +133,27 @@ PROPS.update({
         outside="256-variant cap, and 'every fault-free definition compiles' for arbitrary definitions: outcomes of compiling concrete programs (only the 20 twins are compiled)",
         explanation="C17 quantifies over programs; the accept/reject decision is taken by rustc running the proc-macro on program text and by its const evaluator on literal indices. Decided here: the kernel that carries the logic (solver, all index arrays up to 5 variants), its faithful extraction (translation validation), and agreement of 20 concrete twin programs with the real compiler."),
 })
+
+# C20: the configuration-independent reference model ties the configurations together: enc_X(v) == spec(v) in every X gives
+# enc_X == enc_Y; likewise accept/reject and values. The no-std configuration is what C01/C03/C04 run; here the same
+# harness sets are decided under std (+chain-error, io::Write blanket Output), no-std + chain-error, and with every optional
+# integration switched off.
+_C20_QUICK = ["c01q_u32", "c01q_i64", "c01q_f64", "c01q_compact_u64", "c01q_opt_u32", "c01q_res_opt", "c01q_tup3", "c01q_arr_opt_3", "c01q_vec_u8_3", "c01q_vec_u32_2",
+              "c01q_vec_opt_3", "c01q_vec_vec_2", "c01q_deque_u32_2", "c01q_list_u8_3", "c01q_string_3", "c01q_box_vec", "c01q_duration", "c01q_nz_u32", "c01q_borrowed_forms",
+              "c03q_u16", "c03q_bool", "c03q_optionbool", "c03q_nz_u32", "c03q_duration", "c03q_opt_opt_bool", "c03q_res_opt_compact", "c03q_tup3", "c03q_arr_opt_3", "c03q_box_u32",
+              "c03q_vec_u8_3", "c03q_vec_opt_2", "c03q_vec_u32_2", "c03q_string_3", "c03q_list_u8_2", "c03q_vec_opt_max", "c03q_string_63", "c03q_vec_u8_any_prefix",
+              "c04q_enc_u32", "c04q_enc_u128", "c04q_dec_u32", "c04q_dec_u64", "c04q_width_u32_u64"]
+PROPS["C20"] = dict(
+    runs=[
+        dict(features=["c01", "c03", "c04"], cfg="std", filters={"quick": _C20_QUICK, "thorough": ["c01q_", "c03q_", "c04q_"]}),
+        dict(features=["c01", "c03", "c04"], cfg="chain", filters={"quick": _C20_QUICK[::3], "thorough": ["c01q_", "c03q_", "c04q_"]}),
+        dict(features=["c01", "c03", "c04"], cfg="nostd", noext=True, filters={"quick": _C20_QUICK[1::3], "thorough": ["c01q_", "c03q_", "c04q_"]}),
+        dict(features=["c07", "c08"], cfg="std", filters={"quick": ["c07q_ent_vec_opt_2", "c07q_ent_u32", "c07q_ent_string_2"], "thorough": ["c07q_ent_", "c08q_in_tup3", "c08q_in_vec_opt_2"]}),
+    ],
+    bounds="the quick harness sets of C01 (encode == model), C03 (decode == model) and C04 (compact) -- a representative third of them in the quick tier, all of them in the thorough tier -- decided in {std + chain-error (default), no-std + chain-error, no default features with every optional integration off}; the no-std + integrations configuration is what C01/C03/C04 themselves run; C07 entry points (io::Write blanket Output) under std",
+    outside="fuzz/arbitrary feature (adds derives on Compact only), `full` (no-op), serde (not on the wire path)",
+    explanation="By transitivity through the configuration-independent reference model: for all v: enc_X(v) == spec(v) in every configuration X gives enc_X == enc_Y, and likewise accept/reject and decoded values. Only is_ok()/is_err() of errors is compared, never their descriptions.",
+)
 
 HOOK_COMMITS = ["9ece5a5"]
 NOT_APPLICABLE = {}
